@@ -23,7 +23,7 @@ def placed(snap):
 def run(chk):
     chk.build(["Props/C11.vo"])
     rng = core.Rng(chk.seed * 7919 + 11)
-    cases = S.generate(rng, N[chk.tier])
+    cases = S.generate(rng, N[chk.tier] * (5 if core.hand_models_changed(chk) else 1))
 
     def oracle(c, r):
         steps, answers = r
